@@ -54,6 +54,21 @@ class TraitSetEvent(object):
         )
 
 
+def _as_member(value):
+    """ Return the object under which a lookup argument is found in a set.
+
+    Like the built-in set, lookups (``in``, ``remove``, ``discard``) accept an
+    unhashable set and find the equal frozenset.
+    """
+    try:
+        hash(value)
+    except TypeError:
+        if isinstance(value, set):
+            return frozenset(value)
+        raise
+    return value
+
+
 @IObservable.register
 class TraitSet(set):
     """ A subclass of set that validates and notifies listeners of changes.
@@ -290,7 +305,7 @@ class TraitSet(set):
         super().discard(value)
 
         if value_in_self:
-            self.notify({value}, set())
+            self.notify({_as_member(value)}, set())
 
     def difference_update(self, *args):
         """  Remove all elements of another set from this set.
@@ -364,7 +379,7 @@ class TraitSet(set):
         """
 
         super().remove(value)
-        self.notify({value}, set())
+        self.notify({_as_member(value)}, set())
 
     def symmetric_difference_update(self, value):
         """ Update the set with the symmetric difference of itself and another.
